@@ -82,6 +82,10 @@ volatile bool PPL::Watchdog::alarm_clock_running = false;
 // Whether we are changing data which are also changed by the signal handler.
 volatile bool PPL::Watchdog::in_critical_section = false;
 
+#ifdef BUGSENG_PPL_VERIF
+extern "C" { void (*ppl_verif_watchdog_yield_hook)(const char* label) = 0; }
+#endif
+
 namespace {
 
 void
@@ -182,22 +186,30 @@ PPL::Watchdog::new_watchdog_event(long csecs,
   const Time deadline(csecs);
   if (!alarm_clock_running) {
     position = pending.insert(deadline, handler, expired_flag);
+    PPL_VERIF_YIELD("C3");
     time_so_far = Time(0);
+    PPL_VERIF_YIELD("C4");
     set_timer(deadline);
+    PPL_VERIF_YIELD("C5");
     alarm_clock_running = true;
   }
   else {
     Time time_to_shoot;
+    PPL_VERIF_YIELD("C6");
     get_timer(time_to_shoot);
+    PPL_VERIF_YIELD("C7");
     Time elapsed_time(last_time_requested);
     elapsed_time -= time_to_shoot;
     Time current_time(time_so_far);
     current_time += elapsed_time;
     Time real_deadline(deadline);
     real_deadline += current_time;
+    PPL_VERIF_YIELD("C8");
     position = pending.insert(real_deadline, handler, expired_flag);
+    PPL_VERIF_YIELD("C9");
     if (deadline < time_to_shoot) {
       time_so_far = current_time;
+      PPL_VERIF_YIELD("C9b");
       set_timer(deadline);
     }
   }
@@ -216,20 +228,26 @@ PPL::Watchdog::remove_watchdog_event(WD_Pending_List::iterator position) {
       Time next_deadline(next->deadline());
       if (first_deadline != next_deadline) {
         Time time_to_shoot;
+        PPL_VERIF_YIELD("D3");
         get_timer(time_to_shoot);
+        PPL_VERIF_YIELD("D4");
         Time elapsed_time(last_time_requested);
         elapsed_time -= time_to_shoot;
         time_so_far += elapsed_time;
+        PPL_VERIF_YIELD("D5");
         next_deadline -= first_deadline;
         time_to_shoot += next_deadline;
         set_timer(time_to_shoot);
       }
     }
     else {
+      PPL_VERIF_YIELD("D6");
       stop_timer();
+      PPL_VERIF_YIELD("D7");
       alarm_clock_running = false;
     }
   }
+  PPL_VERIF_YIELD("D7b");
   pending.erase(position);
 }
 
